@@ -54,6 +54,27 @@ func ghost_emitted(eb *extension.AsyncEventBroker[event.MessageMetadata]) vcSeq[
 // R1 (crash invariant of every index update): the index is absent or it is a complete stream.
 //@ pred spec_idxSafe(p string) bool = !ghost_exists(p) || ghost_complete(p)
 
+// R2 (crash invariant of every update): every message that a readable index lists has its content file.
+//@ pred spec_listedHaveRaw(idx string, dir string) bool = !(ghost_exists(idx) && ghost_complete(idx)) ||
+//@     forall i int :: { vcSeqAt(ghost_idxIDs(idx), i) } 0 <= i && i < ghost_items(idx)-1 ==> ghost_exists(filepath.Join(dir, vcSeqAt(ghost_idxIDs(idx), i)+".raw"))
+// ... and so has every entry of the list held in memory (which is what the next index will list).
+//@ pred spec_memHaveRaw(mb *mbox) bool = forall a int :: { vcSeqAt(vcElemsOf(mb.messages), a) } vcOff(mb.messages) <= a && a < vcOff(mb.messages)+len(mb.messages) ==>
+//@     ghost_exists(filepath.Join(mb.path, vcSeqAt(vcElemsOf(mb.messages), a).Fid+".raw"))
+// ASSUMED wherever R2 is stated (as a hypothesis about the entry state): a content file is never the
+// index, its temporary, the mailbox directory or one of its two parents (ids are timestamps followed
+// by a counter; the index is called index.gob).
+//@ pred spec_rawApart(mb *mbox) bool = forall x string :: { filepath.Join(mb.path, x+".raw") } filepath.Join(mb.path, x+".raw") != mb.indexPath &&
+//@     filepath.Join(mb.path, x+".raw") != mb.indexPath+".tmp" && filepath.Join(mb.path, x+".raw") != mb.path &&
+//@     filepath.Join(mb.path, x+".raw") != filepath.Dir(mb.path) && filepath.Join(mb.path, x+".raw") != filepath.Dir(filepath.Dir(mb.path))
+// ASSUMED likewise: the messages an index lists have pairwise different content files (ids are unique:
+// a timestamp followed by a counter), so removing one message's file takes no other message's content.
+//@ pred spec_idxRawsDistinct(idx string, dir string) bool = !(ghost_exists(idx) && ghost_complete(idx)) || forall i int, j int :: { vcSeqAt(ghost_idxIDs(idx), i), vcSeqAt(ghost_idxIDs(idx), j) }
+//@     0 <= i && i < j && j < ghost_items(idx)-1 ==>
+//@     filepath.Join(dir, vcSeqAt(ghost_idxIDs(idx), i)+".raw") != filepath.Join(dir, vcSeqAt(ghost_idxIDs(idx), j)+".raw")
+// R1 and R2 of the mailbox as it is on disk, with the two assumptions.
+//@ pred spec_r2Disk(mb *mbox) bool = spec_rawApart(mb) && spec_idxSafe(mb.indexPath) && spec_listedHaveRaw(mb.indexPath, mb.path) && spec_idxRawsDistinct(mb.indexPath, mb.path)
+//@ pred spec_r2In(mb *mbox) bool = spec_rawApart(mb) && spec_memHaveRaw(mb) && spec_listedHaveRaw(mb.indexPath, mb.path)
+
 // The loaded list: every entry exists and points back to this mailbox.
 //@ pred spec_listOK(mb *mbox) bool = mb != nil && mb.store != nil && mb.store.extHost != nil && mb.store.extHost.Events != nil &&
 //@     mb.indexPath != mb.path && mb.indexPath != filepath.Dir(mb.path) && mb.indexPath != filepath.Dir(filepath.Dir(mb.path)) &&
@@ -204,6 +225,7 @@ func spec_decoded(path string, k int, v any) bool {
 
 //@ func removeDirIfEmpty
 //@   modifies ghost_exists(path), ghost_complete(path), ghost_items(path)
+//@   ensures[onlyRemoves] ghost_exists(path) ==> old(ghost_exists(path))
 //@   serves C11
 
 // writeIndex persists the loaded list (or removes the mailbox directory when the list is empty).
@@ -212,24 +234,42 @@ func spec_decoded(path string, k int, v any) bool {
 //@   attr holds=mb.RWMutex:w
 //@   attr fslock=1
 //@   requires spec_listOK(mb)
-//@   modifies ghost_exists(mb.path), ghost_exists(mb.indexPath), ghost_complete(mb.indexPath), ghost_items(mb.indexPath),
-//@      ghost_exists(mb.indexPath + ".tmp"), ghost_complete(mb.indexPath + ".tmp"), ghost_items(mb.indexPath + ".tmp"), ghost_fcontent(mb.indexPath + ".tmp"),
-//@      ghost_exists(filepath.Dir(mb.path)), ghost_complete(filepath.Dir(mb.path)), ghost_items(filepath.Dir(mb.path)),
-//@      ghost_exists(filepath.Dir(filepath.Dir(mb.path))), ghost_complete(filepath.Dir(filepath.Dir(mb.path))), ghost_items(filepath.Dir(filepath.Dir(mb.path))),
-//@      ghost_idxIDs(mb.indexPath), ghost_idxSeen(mb.indexPath)
+//@   modifies allof(ghost_exists), ghost_complete(mb.indexPath), ghost_items(mb.indexPath),
+//@      ghost_complete(mb.indexPath + ".tmp"), ghost_items(mb.indexPath + ".tmp"), ghost_fcontent(mb.indexPath + ".tmp"),
+//@      ghost_complete(filepath.Dir(mb.path)), ghost_items(filepath.Dir(mb.path)),
+//@      ghost_complete(filepath.Dir(filepath.Dir(mb.path))), ghost_items(filepath.Dir(filepath.Dir(mb.path))),
+//@      ghost_idxIDs(mb.indexPath), ghost_idxSeen(mb.indexPath), ghost_idxName(mb.indexPath),
+//@      ghost_idxIDs(mb.indexPath + ".tmp"), ghost_idxSeen(mb.indexPath + ".tmp"), ghost_idxName(mb.indexPath + ".tmp")
 //@   crashinv[indexReadable] spec_idxSafe(mb.indexPath) || !old(spec_idxSafe(mb.indexPath))
+//@   requires[r2 C11] spec_r2In(mb)
+//@   crashinv[listedHaveRaw C11] spec_listedHaveRaw(mb.indexPath, mb.path)
 //@   ensures[stillSafe C11] spec_idxSafe(mb.indexPath) || !old(spec_idxSafe(mb.indexPath))
+//@   ensures[stillHaveRaw C11] spec_listedHaveRaw(mb.indexPath, mb.path)
+//@   ensures[failureKeepsIndex C11] ret != nil && len(mb.messages) > 0 ==> ghost_exists(mb.indexPath) == old(ghost_exists(mb.indexPath)) && ghost_complete(mb.indexPath) == old(ghost_complete(mb.indexPath)) &&
+//@      ghost_items(mb.indexPath) == old(ghost_items(mb.indexPath)) && forall i int :: { vcSeqAt(ghost_idxIDs(mb.indexPath), i) } vcSeqAt(ghost_idxIDs(mb.indexPath), i) == old(vcSeqAt(ghost_idxIDs(mb.indexPath), i))
+//@   ensures[emptyKeepsOrRemoves C11] len(mb.messages) == 0 ==> !ghost_exists(mb.indexPath) || (ghost_complete(mb.indexPath) == old(ghost_complete(mb.indexPath)) &&
+//@      ghost_items(mb.indexPath) == old(ghost_items(mb.indexPath)) && forall i int :: { vcSeqAt(ghost_idxIDs(mb.indexPath), i) } vcSeqAt(ghost_idxIDs(mb.indexPath), i) == old(vcSeqAt(ghost_idxIDs(mb.indexPath), i)))
+//@   ensures[othersStay] len(mb.messages) > 0 ==> forall q string :: { ghost_exists(q) } q != mb.path && q != mb.indexPath && q != mb.indexPath+".tmp" ==> ghost_exists(q) == old(ghost_exists(q))
+//@   ensures[onlyRemoves] len(mb.messages) == 0 ==> forall q string :: { ghost_exists(q) } ghost_exists(q) ==> old(ghost_exists(q))
 //@   ensures[written] ret == nil && len(mb.messages) > 0 ==> ghost_exists(mb.indexPath) && ghost_complete(mb.indexPath) && ghost_items(mb.indexPath) == len(mb.messages) + 1
-//@   ensures[assumedGobRoundTrip] ret == nil && len(mb.messages) > 0 ==> forall a int :: { vcSeqAt(vcElemsOf(mb.messages), a) } vcOff(mb.messages) <= a && a < vcOff(mb.messages)+len(mb.messages) ==>
+//@   ensures[gobRoundTrip] ret == nil && len(mb.messages) > 0 ==> forall a int :: { vcSeqAt(vcElemsOf(mb.messages), a) } vcOff(mb.messages) <= a && a < vcOff(mb.messages)+len(mb.messages) ==>
 //@      vcSeqAt(ghost_idxIDs(mb.indexPath), a-vcOff(mb.messages)) == vcSeqAt(vcElemsOf(mb.messages), a).Fid &&
 //@      vcSeqAt(ghost_idxSeen(mb.indexPath), a-vcOff(mb.messages)) == vcSeqAt(vcElemsOf(mb.messages), a).Fseen
-//@   ensures[assumedGobRoundTrip2] ret == nil && len(mb.messages) > 0 ==> forall i int :: { vcSeqAt(ghost_idxIDs(mb.indexPath), i) } 0 <= i && i < len(mb.messages) ==>
+//@   ensures[gobRoundTrip2] ret == nil && len(mb.messages) > 0 ==> forall i int :: { vcSeqAt(ghost_idxIDs(mb.indexPath), i) } 0 <= i && i < len(mb.messages) ==>
 //@      vcSeqAt(ghost_idxIDs(mb.indexPath), i) == vcSeqAt(vcElemsOf(mb.messages), vcOff(mb.messages)+i).Fid
-//@   ensures[assumedGobRoundTripName] ret == nil && len(mb.messages) > 0 ==> ghost_idxName(mb.indexPath) == mb.name
-//@   ensures[assumedRemoveAllRemovesIndex] ret == nil && len(mb.messages) == 0 ==> !ghost_exists(mb.indexPath)
+//@   ensures[gobRoundTripName] ret == nil && len(mb.messages) > 0 ==> ghost_idxName(mb.indexPath) == mb.name
+//@   ensures[emptyMeansNoIndex] ret == nil && len(mb.messages) == 0 ==> !ghost_exists(mb.indexPath)
 //@   loop 1: invariant 0 <= ridx && ridx <= len(mb.messages) && writer != nil && file != nil && enc != nil && spec_listOK(mb)
 //@   loop 1: invariant ghost_wcount(writer) == 1 + ridx && ghost_wfile(writer) == file && ghost_fpath(file) == tmpPath && tmpPath == mb.indexPath + ".tmp" && ghost_encw(enc).(*bufio.Writer) == writer && ghost_exists(tmpPath)
 //@   loop 1: decreases len(mb.messages) - ridx
+// ASSUMED (gob round trip): once complete, the stream written to the temporary file decodes to the
+// mailbox name followed by the records of the list, in order.
+//@   loop 1: after[assumedGobRoundTrip] forall a int :: { vcSeqAt(vcElemsOf(mb.messages), a) } vcOff(mb.messages) <= a && a < vcOff(mb.messages)+len(mb.messages) ==>
+//@      vcSeqAt(ghost_idxIDs(tmpPath), a-vcOff(mb.messages)) == vcSeqAt(vcElemsOf(mb.messages), a).Fid &&
+//@      vcSeqAt(ghost_idxSeen(tmpPath), a-vcOff(mb.messages)) == vcSeqAt(vcElemsOf(mb.messages), a).Fseen
+//@   loop 1: after[assumedGobRoundTrip2] forall i int :: { vcSeqAt(ghost_idxIDs(tmpPath), i) } 0 <= i && i < len(mb.messages) ==>
+//@      vcSeqAt(ghost_idxIDs(tmpPath), i) == vcSeqAt(vcElemsOf(mb.messages), vcOff(mb.messages)+i).Fid
+//@   loop 1: after[assumedGobRoundTripName] ghost_idxName(tmpPath) == mb.name
 //@   serves C11 C10 C07 C09
 
 // removeMessage: removes the first entry with that id from the index (the entries after it move up
@@ -241,12 +281,17 @@ func spec_decoded(path string, k int, v any) bool {
 //@   attr holds=mb.RWMutex:w
 //@   attr fslock=1
 //@   requires spec_mbInv(mb) && spec_listOK(mb)
-//@   modifies mb.messages, elems(mb.messages), mb.indexLoaded, mb.name, allof(ghost_exists), allof(ghost_complete), allof(ghost_items), allof(ghost_fcontent), allof(ghost_idxIDs), allof(ghost_idxSeen), ghost_nemitted(&mb.store.extHost.Events.AfterMessageDeleted), ghost_emitted(&mb.store.extHost.Events.AfterMessageDeleted)
+//@   modifies mb.messages, elems(mb.messages), mb.indexLoaded, mb.name, allof(ghost_exists), allof(ghost_complete), allof(ghost_items), allof(ghost_fcontent), allof(ghost_idxIDs), allof(ghost_idxSeen), allof(ghost_idxName), ghost_nemitted(&mb.store.extHost.Events.AfterMessageDeleted), ghost_emitted(&mb.store.extHost.Events.AfterMessageDeleted)
 //@   ensures[stillSafe C11] spec_idxSafe(mb.indexPath) || !old(spec_idxSafe(mb.indexPath))
 //@   ensures[handleOK] mb.indexLoaded ==> spec_listOK(mb)
+//@   ensures[staysLoaded] old(mb.indexLoaded) ==> mb.indexLoaded && vcSameSlice(mb.messages[:0], old(mb.messages[:0]))
 //@   ensures[consistent] ret == nil ==> spec_mbInv(mb)
 //@   ensures[shrinks] old(mb.indexLoaded) && old(len(mb.messages)) > 0 && id == old(mb.messages[0].Fid) ==> len(mb.messages) == old(len(mb.messages)) - 1
 //@   crashinv[indexReadable] spec_idxSafe(mb.indexPath) || !old(spec_idxSafe(mb.indexPath))
+//@   requires[r2 C11] spec_r2Disk(mb)
+//@   crashinv[listedHaveRaw C11] spec_listedHaveRaw(mb.indexPath, mb.path)
+//@   ensures[stillHaveRaw C11] spec_listedHaveRaw(mb.indexPath, mb.path)
+//@   ensures[stillDistinct C11] spec_idxRawsDistinct(mb.indexPath, mb.path)
 //@   ensures[notExist] mb.indexLoaded && old(spec_noID(mb.indexPath, id, spec_idxN(mb.indexPath))) ==> ret == storage.ErrNotExist
 //@   ensures[removedCount C07 C10] ret == nil && len(mb.messages) > 0 ==> spec_idxN(mb.indexPath) == old(spec_idxN(mb.indexPath)) - 1
 //@   ensures[removedWasThere C07 C10] ret == nil ==> !old(spec_noID(mb.indexPath, id, spec_idxN(mb.indexPath)))
@@ -280,6 +325,7 @@ func spec_decoded(path string, k int, v any) bool {
 //@   requires fs.extHost != nil && fs.extHost.Events != nil
 //@   ensures ret != nil && vcFresh(ret) && ret.RWMutex != nil && ret.store == fs && ret.name == mailbox && !ret.indexLoaded && len(ret.messages) == 0 && cap(ret.messages) == 0
 //@   ensures[assumedPathsDistinct] spec_listOK(ret)
+//@   ensures[assumedRawApart] spec_rawApart(ret)
 //@   ensures[deterministicPaths C10] ret.indexPath == spec_indexPath(fs, mailbox) && ret.path == spec_mboxPath(fs, mailbox)
 //@   serves C10 C07 C02
 
@@ -287,9 +333,15 @@ func spec_decoded(path string, k int, v any) bool {
 //@   requires fs.extHost != nil && fs.extHost.Events != nil && len(hash) >= 6
 //@   ensures ret != nil && vcFresh(ret) && ret.RWMutex != nil && ret.store == fs && !ret.indexLoaded && len(ret.messages) == 0 && cap(ret.messages) == 0
 //@   ensures[assumedPathsDistinct] spec_listOK(ret)
+//@   ensures[assumedRawApart] spec_rawApart(ret)
 //@   ensures[hashPaths C10] ret.dirName == hash && ret.name == "" && ret.path == filepath.Join(fs.mailPath, hash[0:3], hash[0:6], hash) &&
 //@      ret.indexPath == filepath.Join(filepath.Join(fs.mailPath, hash[0:3], hash[0:6], hash), indexFileName)
 //@   serves C10 C07
+
+// R1 and R2 of a named mailbox as it is on disk when an operation starts (the inductive hypothesis "after
+// any preceding history"), with the assumption that its ids are unique.
+//@ pred spec_r2Top(fs *Store, mailbox string) bool = spec_idxSafe(spec_indexPath(fs, mailbox)) && spec_listedHaveRaw(spec_indexPath(fs, mailbox), spec_mboxPath(fs, mailbox)) &&
+//@     spec_idxRawsDistinct(spec_indexPath(fs, mailbox), spec_mboxPath(fs, mailbox))
 
 //@ pred spec_storeOK(fs *Store) bool = fs != nil && fs.extHost != nil && fs.extHost.Events != nil
 
@@ -298,9 +350,11 @@ func spec_decoded(path string, k int, v any) bool {
 //@   attr holds=mb.RWMutex:w
 //@   attr fslock=1
 //@   requires spec_listOK(mb)
-//@   modifies *
+//@   modifies mb.messages, allof(ghost_exists), allof(ghost_complete), allof(ghost_items), allof(ghost_fcontent), allof(ghost_idxIDs), allof(ghost_idxSeen), allof(ghost_idxName)
+//@   requires[r2 C11] spec_rawApart(mb) && spec_listedHaveRaw(mb.indexPath, mb.path)
 //@   crashinv[indexReadable] spec_idxSafe(mb.indexPath) || !old(spec_idxSafe(mb.indexPath))
 //@   ensures ret == nil ==> spec_idxN(mb.indexPath) == 0
+//@   ensures[stillHaveRaw C11] spec_listedHaveRaw(mb.indexPath, mb.path)
 //@   serves C07 C11 C09
 
 //@ func (*Store).GetMessage
@@ -318,28 +372,37 @@ func spec_decoded(path string, k int, v any) bool {
 //@ func (*Store).RemoveMessage
 //@   attr fslock=1
 //@   requires spec_storeOK(fs)
+//@   requires[r2 C11] spec_r2Top(fs, mailbox)
 //@   modifies *
-//@   serves C07 C09
+//@   crashinv[listedHaveRaw C11] spec_listedHaveRaw(spec_indexPath(fs, mailbox), spec_mboxPath(fs, mailbox))
+//@   ensures[stillHaveRaw C11] spec_listedHaveRaw(spec_indexPath(fs, mailbox), spec_mboxPath(fs, mailbox))
+//@   serves C07 C09 C11
 //@ func (*Store).PurgeMessages
 //@   attr fslock=1
 //@   requires spec_storeOK(fs)
+//@   requires[r2 C11] spec_r2Top(fs, mailbox)
 //@   modifies *
+//@   crashinv[listedHaveRaw C11] spec_listedHaveRaw(spec_indexPath(fs, mailbox), spec_mboxPath(fs, mailbox))
+//@   ensures[stillHaveRaw C11] spec_listedHaveRaw(spec_indexPath(fs, mailbox), spec_mboxPath(fs, mailbox))
 //@   loop 1: invariant 0 <= ridx && ridx <= len(mb.messages) && spec_loaded(mb) && mb != nil && mb.RWMutex != nil
 //@   loop 1: invariant ghost_nemitted(&fs.extHost.Events.AfterMessageDeleted) == old(ghost_nemitted(&fs.extHost.Events.AfterMessageDeleted)) + ridx
 //@   loop 1: after[oneEventEach C16] ghost_nemitted(&fs.extHost.Events.AfterMessageDeleted) == old(ghost_nemitted(&fs.extHost.Events.AfterMessageDeleted)) + len(mb.messages)
-//@   serves C07 C16 C09
+//@   serves C07 C16 C09 C11
 
 // MarkSeen: a message that does not exist is ErrNotExist (and nothing is rewritten).
 //@ func (*Store).MarkSeen
 //@   attr fslock=1
 //@   requires spec_storeOK(fs)
+//@   requires[r2 C11] spec_r2Top(fs, mailbox)
 //@   modifies *
 //@   crashinv[indexReadable] true
+//@   crashinv[listedHaveRaw C11] spec_listedHaveRaw(spec_indexPath(fs, mailbox), spec_mboxPath(fs, mailbox))
+//@   ensures[stillHaveRaw C11] spec_listedHaveRaw(spec_indexPath(fs, mailbox), spec_mboxPath(fs, mailbox))
 //@   ensures[notExist] ret == nil ==> !old(spec_noID(spec_indexPath(fs, mailbox), id, spec_idxN(spec_indexPath(fs, mailbox))))
 //@   loop 1: invariant 0 <= ridx && ridx <= len(mb.messages) && spec_loaded(mb) && mb != nil && mb.RWMutex != nil
 //@   loop 1: invariant forall i int :: { vcSeqAt(ghost_idxIDs(mb.indexPath), i) } 0 <= i && i < ridx ==> vcSeqAt(ghost_idxIDs(mb.indexPath), i) != id
 //@   loop 1: decreases len(mb.messages) - ridx
-//@   serves C07 C09
+//@   serves C07 C09 C11
 
 // newMessage: a fresh record for this mailbox; with a cap the list is first cut to below the cap
 // (oldest entries first: always entry 0).
@@ -348,16 +411,27 @@ func spec_decoded(path string, k int, v any) bool {
 // ASSUMED: the cap loop ignores I/O errors of removeMessage, after which the handle is not known to be
 // consistent with the disk; without I/O faults it removes entry 0 until the list is below the cap.
 //@ func (*mbox).newMessage
-//@   trusted
 //@   requires spec_mbInv(mb) && spec_listOK(mb)
-//@   modifies mb.messages, elems(mb.messages), mb.indexLoaded, mb.name, allof(ghost_exists), allof(ghost_complete), allof(ghost_items), allof(ghost_fcontent), allof(ghost_idxIDs), allof(ghost_idxSeen), ghost_nemitted(&mb.store.extHost.Events.AfterMessageDeleted), ghost_emitted(&mb.store.extHost.Events.AfterMessageDeleted)
+//@   modifies mb.messages, elems(mb.messages), mb.indexLoaded, mb.name, allof(ghost_exists), allof(ghost_complete), allof(ghost_items), allof(ghost_fcontent), allof(ghost_idxIDs), allof(ghost_idxSeen), allof(ghost_idxName), ghost_nemitted(&mb.store.extHost.Events.AfterMessageDeleted), ghost_emitted(&mb.store.extHost.Events.AfterMessageDeleted)
+//@   requires[r2 C11] spec_r2Disk(mb)
 //@   ensures[stillSafe C11] spec_idxSafe(mb.indexPath) || !old(spec_idxSafe(mb.indexPath))
 //@   crashinv[indexReadable] spec_idxSafe(mb.indexPath) || !old(spec_idxSafe(mb.indexPath))
+//@   crashinv[listedHaveRaw C11] spec_listedHaveRaw(mb.indexPath, mb.path)
+//@   ensures[stillHaveRaw C11] spec_listedHaveRaw(mb.indexPath, mb.path)
+//@   ensures[listHasRaw C11] ret1 == nil ==> spec_memHaveRaw(mb)
+// ASSUMED: the new id is not the id of a message the mailbox already holds (timestamp and counter).
+//@   ensures[assumedFreshID] ret1 == nil ==> forall a int :: { vcSeqAt(vcElemsOf(mb.messages), a) } vcOff(mb.messages) <= a && a < vcOff(mb.messages)+len(mb.messages) ==>
+//@      filepath.Join(mb.path, vcSeqAt(vcElemsOf(mb.messages), a).Fid+".raw") != filepath.Join(mb.path, ret0.Fid+".raw")
+//@   ensures[assumedFreshIDOnDisk] ret1 == nil && ghost_exists(mb.indexPath) && ghost_complete(mb.indexPath) ==> forall i int :: { vcSeqAt(ghost_idxIDs(mb.indexPath), i) } 0 <= i && i < ghost_items(mb.indexPath)-1 ==>
+//@      filepath.Join(mb.path, vcSeqAt(ghost_idxIDs(mb.indexPath), i)+".raw") != filepath.Join(mb.path, ret0.Fid+".raw")
 //@   ensures ret1 == nil ==> ret0 != nil && vcFresh(ret0) && ret0.mailbox == mb && mb.indexLoaded && spec_listOK(mb)
 //@   ensures[belowCap C08] ret1 == nil && mb.store.messageCap > 0 ==> len(mb.messages) < mb.store.messageCap
 //@   ensures[noCapUntouched C08] ret1 == nil && mb.store.messageCap <= 0 ==> spec_loaded(mb) && spec_idxN(mb.indexPath) == old(spec_idxN(mb.indexPath)) &&
 //@      forall i int :: { vcSeqAt(ghost_idxIDs(mb.indexPath), i) } 0 <= i && i < spec_idxN(mb.indexPath) ==> vcSeqAt(ghost_idxIDs(mb.indexPath), i) == old(vcSeqAt(ghost_idxIDs(mb.indexPath), i))
 //@   loop 1: invariant mb.indexLoaded && spec_listOK(mb) && mb.store.messageCap > 0 && (spec_idxSafe(mb.indexPath) || !old(spec_idxSafe(mb.indexPath)))
+//@   loop 1: invariant vcFresh(mb.messages) || len(mb.messages) == 0 || (vcSameSlice(mb.messages[:0], old(mb.messages[:0])) && len(mb.messages) <= old(len(mb.messages)))
+//@   loop 1: invariant[assumedNoIOFaults] spec_mbInv(mb)
+//@   loop 1: invariant[r2] spec_r2Disk(mb)
 //@   loop 1: decreases len(mb.messages)
 //@   serves C08 C07 C11
 
@@ -367,7 +441,10 @@ func spec_decoded(path string, k int, v any) bool {
 //@   attr fslock=1
 //@   requires spec_storeOK(fs) && m != nil
 //@   modifies *
+//@   requires[r2 C11] spec_r2Top(fs, m.Mailbox())
 //@   crashinv[indexReadable] spec_idxSafe(spec_indexPath(fs, m.Mailbox())) || !old(spec_idxSafe(spec_indexPath(fs, m.Mailbox())))
+//@   crashinv[listedHaveRaw C11] spec_listedHaveRaw(spec_indexPath(fs, m.Mailbox()), spec_mboxPath(fs, m.Mailbox()))
+//@   ensures[stillHaveRaw C11] spec_listedHaveRaw(spec_indexPath(fs, m.Mailbox()), spec_mboxPath(fs, m.Mailbox()))
 //@   ensures[storesSource C02] err == nil ==> ghost_fcontent(spec_rawPath(fs, m.Mailbox(), id)) == storage.Ghost_srcContent(m)
 //@   ensures[appendedLast C07 C10] err == nil ==> spec_idxN(spec_indexPath(fs, m.Mailbox())) >= 1 &&
 //@      vcSeqAt(ghost_idxIDs(spec_indexPath(fs, m.Mailbox())), spec_idxN(spec_indexPath(fs, m.Mailbox()))-1) == id
